@@ -222,7 +222,7 @@ pub fn c08_sweep(tier: Tier) -> (Acc, Value) {
         }
         // word-final and after-upper-case positions, with and without a separator in the name
         // (context-sensitive case mappings such as the final sigma; ASCII fast paths)
-        for name in [format!("a{c}"), format!("A{c}"), format!("_a{c}"), format!("B.a{c}-")] {
+        for name in [format!("a{c}"), format!("A{c}"), format!("_a{c}"), format!("B.a{c}-"), format!("{c}_b"), format!("{c}{c}-.x")] {
             c08_name_case("pypi", &name, acc);
             c08_name_case("nuget", &name, acc);
         }
